@@ -290,6 +290,41 @@ def job_output(job):
                     viols[repr(s)] = {"kind": "output-partition", "sig": s,
                                       "msg": "[%s] reads %r + final read do not partition the %d output bytes" % (pname, seq, n),
                                       "case": {"output": pname, "seq": list(seq)}}
+        # ---- reads interleaved with events that empty the buffer: a partial read, then the buffer is discarded
+        # (clear_outbound_data_buffer, or the library's own discard when the peer's GOAWAY arrives), then one new frame
+        # is queued - the next reads must return exactly that frame
+        for first in amounts:
+            for how in ("clear", "goaway"):
+                for second in (None, 1, 5):
+                    conn = pickle.loads(blob)
+                    got_first = conn.data_to_send(first)
+                    try:
+                        if how == "clear":
+                            conn.clear_outbound_data_buffer()
+                            conn.ping(b"AFTERCLR")
+                        else:
+                            conn.receive_data(wire.goaway(0, 0).serialize())
+                            conn.close_connection(0, b"afterclear")
+                    except Exception:  # noqa: BLE001 - whether these calls are possible here is not this check's subject
+                        continue
+                    cnt += 1
+                    outcomes["reads-after-discard"] = outcomes.get("reads-after-discard", 0) + 1
+                    parts = [conn.data_to_send(second)] if second is not None else []
+                    parts.append(conn.data_to_send())
+                    new_bytes = b"".join(parts)
+                    try:
+                        frs = wire.parse(new_bytes)
+                    except wire.WireError:
+                        frs = None
+                    want_type = wire.PING if how == "clear" else wire.GOAWAY
+                    okay = (got_first == whole[:first] and frs is not None and len(frs) == 1 and frs[0].type == want_type and
+                            (second is None or len(parts[0]) <= second) and conn.data_to_send() == b"")
+                    if not okay:
+                        s = {"kind": "output-after-discard", "program": pname, "how": how}
+                        viols[repr(s)] = {"kind": "output-after-discard", "sig": s,
+                                          "msg": "[%s] read %d bytes, buffer discarded (%s), one new frame queued: reads (%r, rest) returned %r" % (
+                                              pname, first, how, second, new_bytes),
+                                          "case": {"output": pname, "discard": how, "first": first, "second": second}}
     return {"evaluations": cnt, "outcomes": outcomes, "nontrivial": cnt, "violations": list(viols.values()),
             "samples": [{"output_program": "client-burst", "reads": [1, 9, "n-1", "rest"]}]}
 
